@@ -317,6 +317,21 @@ def check(run, repo):
         if f not in jm.functions:
             raise AnchorError('%s.%s not found' % (JSON, f))
         run.fn('%s.%s' % (JSON, f))
+    # the object hook sees every dictionary of the document, including free-form ones kept in notes: whatever is not
+    # the serialised form of a registered class must come back untouched (not raise, not be converted)
+    hook = jm.functions['json_to_pmutt']
+    Ih = Interp(repo, max_depth=8)
+    plain = [('no class entry', DictV({'family': 'alcohol', 'n': C(3)})),
+             ('class entry that is no pMuTT class', DictV({'family': 'alcohol', 'class': 'oxygenate'})),
+             ('class entry that is a number', DictV({'class': C(3)})),
+             ('class entry that is a list', DictV({'class': ListV(['a', 'b'])})),
+             ('empty', DictV({}))]
+    for lab, d_ in plain:
+        snap = dict(d_.d)
+        r = Ih.call_function(jm, hook, [], {'json_obj': d_})
+        run.check(r is d_ and d_.d == snap, 'PATH.hook-passthrough', 'json.json_to_pmutt', lab,
+                  'a dictionary that is not a serialised pMuTT object (%s) must be returned unchanged by the object '
+                  'hook; got %s' % (lab, show(r, 80)), jm, hook, sample='json_to_pmutt(%s) is the same dictionary' % lab)
     order = RankOrder({'w0': 5, 'w1': 7, 'b1': 3}, const_ranks=True)
     I0 = Interp(repo, order=order, max_depth=16)
     labels = [lab for lab, _ in builders(I0, repo)]
